@@ -13,6 +13,9 @@ import (
 	"github.com/dtn7/dtn7-go/pkg/cla/tcpclv4/internal/msgs"
 )
 
+// maxSegmentSize limits the size of a single outgoing XFER_SEGMENT.
+const maxSegmentSize uint64 = 1 << 20
+
 // OutgoingTransfer represents an outgoing Bundle Transfer for the TCPCLv4.
 type OutgoingTransfer struct {
 	Id uint64
@@ -54,6 +57,15 @@ func NewBundleOutgoingTransfer(id uint64, b bpv7.Bundle) *OutgoingTransfer {
 
 // NextSegment creates the next XFER_SEGMENT for the given MTU or an EOF in case of a finished Writer.
 func (t *OutgoingTransfer) NextSegment(mtu uint64) (dtm *msgs.DataTransmissionMessage, err error) {
+	// The MTU is the segment MRU announced by the peer. A zero would result in an endless stream
+	// of empty segments and a huge value in a huge buffer; smaller segments are always permitted.
+	if mtu == 0 {
+		err = fmt.Errorf("segment MTU must not be zero")
+		return
+	} else if mtu > maxSegmentSize {
+		mtu = maxSegmentSize
+	}
+
 	var segFlags msgs.SegmentFlags
 
 	if t.startFlag {
